@@ -4,9 +4,33 @@ CARD = 'cardutil/card.py'
 
 MCI = 'cardutil/mciipm.py'
 
+PINB = 'cardutil/pinblock.py'
+KEYF = 'cardutil/key.py'
 VBSMODS = ['contracts.mciipm_block', 'contracts.mciipm_vbs']
 
 PROPS = {
+    'C13': {
+        'modules': ['contracts.pinblock'],
+        'canaries': [
+            (PINB, "rightmost_12 = self.card_number[-13:-1]", "rightmost_12 = self.card_number[-12:]", "format 0 includes the check digit"),
+            (PINB, ':a<16}{self.random_value:016x}', ':f<16}{self.random_value:016x}', "format 4 filled with F"),
+            (PINB, "pin = p1[2:2 + pin_length]\n        return cls(pin, card_number=card_number)", "pin = p1[2:1 + pin_length]\n        return cls(pin, card_number=card_number)", "format 0 decode drops last digit"),
+        ],
+        'assumptions': ["cryptography's TripleDES / AES in ECB mode are uninterpreted block functions E/D per key width with D(k,E(k,x)) = x, defined for key lengths 8/16/24 (TDES; 8- and 16-byte keys are the 24-byte keys KKK / K1K2K1) and 16/24/32 (AES) and whole blocks, ValueError otherwise; the ciphers themselves (the statement's `independent DES/AES reference`) are out of reach of contracts on cardutil - known-answer vectors in the native stand-in test the assumption",
+                        "finite case split: PIN lengths 4..12 x PAN lengths 13..19 for the clear blocks (complete), PIN lengths {4,12} x 16-digit PAN x every key length for the encrypted forms; all digits, key nibbles and random bits symbolic",
+                        "secrets.randbits(k) returns a fresh k-bit value per call"],
+    },
+    'C14': {
+        'modules': ['contracts.pinblock'],
+        'canaries': [
+            (PINB, "rightmost_11 = card_number[-12:-1]", "rightmost_11 = card_number[-11:]", "TSP includes the check digit", "_get_tsp"),
+            (KEYF, "p1 = f'{int(p1, 16) ^ int(key_part, 16):032x}'", "p1 = f'{int(key_part, 16):032x}'", "key parts not accumulated", "get_zone_master_key"),
+            (PINB, "if len(values_pass1) < 4:", "if len(values_pass1) < 3:", "second scan skipped with three digits", "calculate_pvv[key=16 hex,pin=4"),
+            (PINB, "str(int(value, 16) - 10)", "str(int(value, 16) - 9)", "A-F mapped to 1-6", "calculate_pvv[key=16 hex,pin=4"),
+        ],
+        'assumptions': ["cipher model as for C13", "finite split: TSP for all PIN 4..12 x PAN 13..19 (x idx 0..9 for one shape, {0,5,9} otherwise); PVV decimalisation for three shapes x key lengths 8/16/24 bytes with the 16 ciphertext nibbles free (so scans needing 0..4 substituted digits are all covered); key components: 1..4 parts, each 32 symbolic hex digits",
+                        "order independence for more than adjacent swaps follows from adjacent transpositions generating all permutations (stated, not mechanised)"],
+    },
     'C03': {
         'modules': VBSMODS,
         'canaries': [
